@@ -1141,8 +1141,8 @@ func decodeAttr(attr *internal.Attr) (key string, value interface{}) {
 	}
 }
 
-func decodeRowIdentifiers(a *internal.RowIdentifiers) *pilosa.RowIdentifiers {
-	return &pilosa.RowIdentifiers{
+func decodeRowIdentifiers(a *internal.RowIdentifiers) pilosa.RowIdentifiers {
+	return pilosa.RowIdentifiers{
 		Rows: a.Rows,
 		Keys: a.Keys,
 	}
